@@ -756,6 +756,10 @@ def oracle(sim: Sim, plan: dict) -> list[dict]:
             if "ctx_exit" in ev and ev["ctx_exit"][0] < seq:
                 v("C01.late", "after_exit", f"callback {cb} of {c} started after the context was left")
             st = stacks.get(c, [])
+            if "body_end" in ev and regs.get(cb) and any(
+                x[0] > ev["body_end"][0] and x[4] == "reg" and x[5]["cb"] == cb for x in tr[: seq]
+            ):
+                sim.probe("callback_registered_during_teardown_ran")
             if not st or st[-1] != cb:
                 v(
                     "C01.order",
@@ -800,6 +804,10 @@ def oracle(sim: Sim, plan: dict) -> list[dict]:
         elif kind == "cb_end":
             c, cb = d["ctx"], d["cb"]
             ends[cb] = ends.get(cb, 0) + 1
+            if d["how"] == "cancel":
+                sim.probe("callback_cancelled_at_checkpoint")
+            if cancel_seq is not None and starts.get(cb) and ctx_ev.get(c, {}).get("body_end", (0,))[0] < cancel_seq < seq:
+                sim.probe("cancel_landed_during_teardown")
             if running.get(c) == cb:
                 running[c] = None
             if d["how"] != "return":
